@@ -1,49 +1,41 @@
 /-
-  Executable model of `Buffer` (include/nstd/Buffer.hpp), method by method, over
-  *checked* memory.  Every pointer of the C++ object is a (block reference, offset)
-  pair; every load/store is validated against the extent of the block it goes to.
-  A violation makes the operation return `none` (= fault), which is what the
-  property's "never reads or writes outside its own allocation or the attached
-  range" forbids.  Core Lean only (the compiled driver links this file).
+  Executable model of `Buffer` (include/nstd/Buffer.hpp), method by method and branch
+  by branch, over *checked* memory.  Core Lean only (the compiled driver links this file).
 
-  Pointer targets:
-    * `heap id`  – an allocation made by `new char[n]` (n bytes, initially unspecified)
-    * `reg r`    – attachable caller memory (region `r`), never allocated/freed by Buffer
-    * `cell v`   – the `_capacity` field of Buffer variable `v` (the default state
-                   points `bufferStart`/`bufferEnd` at the object's own field)
+  Every `Buffer` object owns its allocation exclusively (no sharing, no reference count),
+  therefore the model gives every object its memory *by value*:
+
+    * `own m`   – `buffer` points to the block made by `new char[m.length]`; `bufferStart`
+                  and `bufferEnd` are the offsets `s`, `e` into that block
+    * `att m`   – `buffer == 0`; `bufferStart`/`bufferEnd` are offsets into the *attached
+                  range* (caller memory, `m` = its bytes).  The model has no way of
+                  modifying attached memory: a store of ≥ 1 byte through such a pointer is
+                  a fault
+    * `dflt c`  – `buffer == 0`; `bufferStart`/`bufferEnd` point at the `_capacity` field
+                  of Buffer variable `c` (the default state); only zero-length accesses
+                  are allowed there
+
+  Every load/store is validated against the extent of the block it goes to; a violation
+  makes the operation return `none` (= fault), which is what the property's "never reads
+  or writes outside its own allocation or the attached range" forbids.
+
+  The methods taking `(const byte* data, usize size)` / `const Buffer& other` receive the
+  bytes of the argument by value when the argument is not the object itself (an operation
+  on variable `v` cannot change the memory of another variable, so the moment of reading
+  does not matter); the alias cases `a = a`, `a.append(a)`, `a.prepend(a)` have dedicated
+  functions (`assignSelf`, `appendSelf`, `prependSelf`) that follow the same C++ text with
+  the source pointer pointing into the object's own memory.
+
+  Not modelled: `delete[]` bookkeeping (the block simply disappears with the value; a
+  double free / use of a stale `buffer` pointer cannot be expressed except in `assignSelf`,
+  and is left to ASan in the harness) and allocation failure.
 -/
 namespace Nstd.Buffer
 
 /-- a byte of memory; `none` = unspecified (fresh allocation) -/
 abbrev Byte := Option Nat
 
-inductive Ref where
-  | heap (id : Nat)
-  | reg (r : Nat)
-  | cell (v : Nat)
-  deriving DecidableEq, Repr, Inhabited
-
-/-- one `Buffer` object: `buffer`, `bufferStart = (ref, s)`, `bufferEnd = (ref, e)`, `_capacity` -/
-structure Buf where
-  buffer : Option Nat
-  ref : Ref
-  s : Nat
-  e : Nat
-  cap : Nat
-  deriving Repr, Inhabited
-
-structure State where
-  bufs : List Buf                    -- the Buffer variables
-  heap : List (Option (List Byte))   -- allocations; `none` = freed
-  regs : List (List Byte)            -- attachable regions
-  deriving Repr, Inhabited
-
-def defaultBuf (v : Nat) : Buf := { buffer := none, ref := .cell v, s := 0, e := 0, cap := 0 }
-
-def init (nvars : Nat) (regs : List (List Byte)) : State :=
-  { bufs := (List.range nvars).map defaultBuf, heap := [], regs := regs }
-
-/-! ### checked memory -/
+/-! ### checked memory blocks -/
 
 def rdList (m : List Byte) (off n : Nat) : Option (List Byte) :=
   if off + n ≤ m.length then some ((m.drop off).take n) else none
@@ -51,309 +43,291 @@ def rdList (m : List Byte) (off n : Nat) : Option (List Byte) :=
 def wrList (m : List Byte) (off : Nat) (d : List Byte) : Option (List Byte) :=
   if off + d.length ≤ m.length then some (m.take off ++ d ++ m.drop (off + d.length)) else none
 
-def State.block (st : State) : Ref → Option (List Byte)
-  | .heap id => (st.heap.getD id none)
-  | .reg r => st.regs[r]?
-  | .cell _ => none
+/-- `new char[n]` -/
+def fresh (n : Nat) : List Byte := List.replicate n none
 
-/-- load `n` bytes at `(ref, off)` -/
-def State.load (st : State) (ref : Ref) (off n : Nat) : Option (List Byte) :=
-  match ref with
-  | .cell _ => if n = 0 then some [] else none     -- the capacity field is never read as data
-  | _ => do
-    let m ← st.block ref
-    rdList m off n
+inductive Store where
+  | own (m : List Byte)
+  | att (m : List Byte)
+  | dflt (cell : Nat)
+  deriving Repr, Inhabited
 
-/-- store `d` at `(ref, off)` on behalf of Buffer variable `self` -/
-def State.store (st : State) (self : Nat) (ref : Ref) (off : Nat) (d : List Byte) : Option State :=
-  match ref with
-  | .heap id => do
-    let m ← st.heap.getD id none
-    let m' ← wrList m off d
-    pure { st with heap := st.heap.set id (some m') }
-  | .reg r => do
-    let m ← st.regs[r]?
-    let m' ← wrList m off d
-    pure { st with regs := st.regs.set r m' }
-  | .cell _ =>
-    -- the capacity field is never written through a data pointer
-    if d.isEmpty then some st else none
+/-- load `n` bytes at offset `off` of the block `bufferStart` points into -/
+def Store.load : Store → Nat → Nat → Option (List Byte)
+  | .own m, off, n => rdList m off n
+  | .att m, off, n => rdList m off n
+  | .dflt _, _, n => if n = 0 then some [] else none   -- the capacity field is never read as data
 
-def State.alloc (st : State) (n : Nat) : State × Nat :=
-  ({ st with heap := st.heap ++ [some (List.replicate n none)] }, st.heap.length)
+/-- store `d` at offset `off` of the block `bufferStart` points into -/
+def Store.write : Store → Nat → List Byte → Option Store
+  | .own m, off, d => (wrList m off d).map .own
+  -- attached memory is never modified (a zero-length `memcpy` touches nothing)
+  | .att m, off, d => if d = [] ∧ off ≤ m.length then some (.att m) else none
+  -- the capacity field is never written through a data pointer
+  | .dflt c, _, d => if d = [] then some (.dflt c) else none
 
-/-- `delete[] buffer` (a null pointer is fine, a freed block is a double free) -/
-def State.free (st : State) : Option Nat → Option State
-  | none => some st
-  | some id =>
-    match st.heap.getD id none with
-    | none => none
-    | some _ => some { st with heap := st.heap.set id none }
+/-- one `Buffer` object: `buffer`/block, `bufferStart = block + s`, `bufferEnd = block + e`, `_capacity` -/
+structure Buf where
+  store : Store
+  s : Nat
+  e : Nat
+  cap : Nat
+  deriving Repr, Inhabited
 
-def overlap (r1 : Ref) (o1 : Nat) (r2 : Ref) (o2 n : Nat) : Bool :=
-  r1 = r2 && n != 0 && o1 != o2 && o1 < o2 + n && o2 < o1 + n
+/-- `buffer != 0` -/
+def Buf.owning (b : Buf) : Bool :=
+  match b.store with
+  | .own _ => true
+  | _ => false
 
-/-- `Memory::copy` = `memcpy`: source and destination must not overlap -/
-def State.copy (st : State) (self : Nat) (dr : Ref) (doff : Nat) (sr : Ref) (soff n : Nat) : Option State :=
-  if overlap dr doff sr soff n then none
+/-- `Memory::copy` = `memcpy`: source and destination ranges in the same block must not overlap -/
+def noOverlap (dst src n : Nat) : Bool :=
+  n = 0 || dst = src || dst + n ≤ src || src + n ≤ dst
+
+/-- `p - n` on a pointer at offset `p` (leaving the block downwards is a fault) -/
+def ptrSub (p n : Nat) : Option Nat := if n ≤ p then some (p - n) else none
+
+/-! ### constructors -/
+
+/-- `Buffer()` of variable `self` -/
+def Buf.default (self : Nat) : Buf := { store := .dflt self, s := 0, e := 0, cap := 0 }
+
+/-- `Buffer(usize capacity)` -/
+def Buf.ctorCap (capacity : Nat) : Option Buf := do
+  let m ← wrList (fresh (capacity + 1)) 0 [some 0]
+  pure { store := .own m, s := 0, e := 0, cap := capacity }
+
+/-- `Buffer(const byte* data, usize size)`; also `Buffer(const Buffer& other)` with the
+    bytes `[other.bufferStart, other.bufferEnd)` already loaded -/
+def Buf.ctorData (data : List Byte) : Option Buf := do
+  let size := data.length
+  let m ← wrList (fresh (size + 1)) 0 data
+  let m ← wrList m size [some 0]
+  pure { store := .own m, s := 0, e := size, cap := size }
+
+/-- the exposed bytes `[bufferStart, bufferEnd)` (a checked load) -/
+def Buf.contents (b : Buf) : Option (List Byte) := b.store.load b.s (b.e - b.s)
+
+/-! ### methods -/
+
+/-- `attach(data, length)`; `range` = the bytes of the attached range -/
+def Buf.attach (range : List Byte) : Buf :=
+  { store := .att range, s := 0, e := range.length, cap := 0 }
+
+/-- `operator=(const Buffer& other)` for `&other != this` and `assign(const byte* data, usize size)`
+    (the two bodies differ only in `Memory::move` vs `Memory::copy`, which agree for
+    a source outside the block) -/
+def Buf.assign (b : Buf) (data : List Byte) : Option Buf :=
+  let size := data.length
+  if size > b.cap then do
+    -- delete[] buffer; _capacity = size; buffer = new char[size + 1]
+    let m ← wrList (fresh (size + 1)) 0 data
+    let m ← wrList m size [some 0]
+    pure { store := .own m, s := 0, e := size, cap := size }
+  else
+    match b.store with
+    | .own m => do
+      let m ← wrList m 0 data
+      let m ← wrList m size [some 0]
+      pure { b with store := .own m, s := 0, e := size }
+    | _ =>
+      -- `else if(!buffer) { bufferEnd = bufferStart; return; }`
+      pure { b with e := b.s }
+
+/-- `a = a` -/
+def Buf.assignSelf (b : Buf) : Option Buf :=
+  let size := b.e - b.s
+  if size > b.cap then
+    match b.store with
+    | .own _ => none                 -- `delete[] buffer`, then `Memory::move` reads the freed block
+    | st => do                       -- `buffer == 0`: the source is attached memory
+      let d ← st.load b.s size
+      let m ← wrList (fresh (size + 1)) 0 d
+      let m ← wrList m size [some 0]
+      pure { store := .own m, s := 0, e := size, cap := size }
+  else
+    match b.store with
+    | .own m => do
+      let d ← rdList m b.s size
+      let m ← wrList m 0 d            -- `Memory::move` (overlap allowed)
+      let m ← wrList m size [some 0]
+      pure { b with store := .own m, s := 0, e := size }
+    | _ => pure { b with e := b.s }
+
+/-- `prepend(const byte* data, usize size)` / `prepend(const Buffer& data)` with `data` outside
+    the object's own block (so the test `data + size <= buffer || data > buffer + _capacity`
+    of the second branch holds) -/
+def Buf.prepend (b : Buf) (data : List Byte) : Option Buf :=
+  let size := data.length
+  if b.owning = true ∧ size ≤ b.s then do
+    -- room in front
+    let st ← b.store.write (b.s - size) data
+    pure { b with store := st, s := b.s - size }
+  else
+    let oldSize := b.e - b.s
+    let required := size + oldSize
+    if b.owning = true ∧ required ≤ b.cap then do
+      -- shift in place
+      let old ← b.store.load b.s oldSize
+      let st ← b.store.write size old            -- `Memory::move`
+      let st ← st.write 0 data
+      let st ← st.write required [some 0]
+      pure { b with store := st, s := 0, e := required }
+    else do
+      -- reallocate
+      let m ← wrList (fresh (required + 1)) 0 data
+      let old ← b.store.load b.s oldSize
+      let m ← wrList m size old
+      let m ← wrList m required [some 0]
+      pure { store := .own m, s := 0, e := required, cap := required }
+
+/-- `a.prepend(a)`: `data == bufferStart`, `size == bufferEnd - bufferStart` -/
+def Buf.prependSelf (b : Buf) : Option Buf :=
+  let size := b.e - b.s
+  if b.owning = true ∧ size ≤ b.s then do
+    let d ← b.store.load b.s size
+    if noOverlap (b.s - size) b.s size then do
+      let st ← b.store.write (b.s - size) d
+      pure { b with store := st, s := b.s - size }
+    else none
+  else
+    let oldSize := b.e - b.s
+    let required := size + oldSize
+    -- `data + size <= buffer || data > buffer + _capacity` with `data = buffer + s`
+    if b.owning = true ∧ required ≤ b.cap ∧ (b.s + size ≤ 0 ∨ b.s > b.cap) then do
+      let old ← b.store.load b.s oldSize
+      let st ← b.store.write size old
+      let d ← st.load b.s size                   -- the data is read after the shift
+      if noOverlap 0 b.s size then do
+        let st ← st.write 0 d
+        let st ← st.write required [some 0]
+        pure { b with store := st, s := 0, e := required }
+      else none
+    else do
+      let d ← b.store.load b.s size
+      let m ← wrList (fresh (required + 1)) 0 d
+      let old ← b.store.load b.s oldSize
+      let m ← wrList m size old
+      let m ← wrList m required [some 0]
+      pure { store := .own m, s := 0, e := required, cap := required }
+
+/-- `resize(usize size)` -/
+def Buf.resize (b : Buf) (size : Nat) : Option Buf :=
+  if size > b.cap then do
+    let oldSize := b.e - b.s
+    let old ← b.store.load b.s (if oldSize < size then oldSize else size)
+    let m ← wrList (fresh (size + 1)) 0 old
+    let m ← wrList m size [some 0]
+    pure { store := .own m, s := 0, e := size, cap := size }
+  else
+    match b.store with
+    | .own m =>
+      if b.s + size ≤ b.cap then do
+        let m ← wrList m (b.s + size) [some 0]
+        pure { b with store := .own m, e := b.s + size }
+      else do
+        -- compact to the front
+        let old ← rdList m b.s (b.e - b.s)
+        let m ← wrList m 0 old                   -- `Memory::move`
+        let m ← wrList m size [some 0]
+        pure { b with store := .own m, s := 0, e := size }
+    | _ =>
+      -- `else if(!buffer) bufferEnd = bufferStart;`
+      pure { b with e := b.s }
+
+/-- the final `if(buffer) *bufferEnd = 0;` of both `append`s and of `removeBack` -/
+def Buf.termIfOwning (b : Buf) : Option Buf :=
+  match b.store with
+  | .own m => do
+    let m ← wrList m b.e [some 0]
+    pure { b with store := .own m }
+  | _ => pure b
+
+/-- `append(const byte* data, usize size)` / `append(const Buffer& data)` for `&data != this` -/
+def Buf.append (b : Buf) (data : List Byte) : Option Buf := do
+  let size := data.length
+  let b ← b.resize (b.e - b.s + size)
+  let dst ← ptrSub b.e size
+  let st ← b.store.write dst data
+  Buf.termIfOwning { b with store := st }
+
+/-- `a.append(a)`: size is taken before, `data.bufferStart` after the `resize` -/
+def Buf.appendSelf (b : Buf) : Option Buf := do
+  let size := b.e - b.s
+  let b ← b.resize (b.e - b.s + size)
+  let dst ← ptrSub b.e size
+  let d ← b.store.load b.s size
+  if noOverlap dst b.s size then do
+    let st ← b.store.write dst d
+    Buf.termIfOwning { b with store := st }
+  else none
+
+/-- `bufferStart = bufferEnd = buffer ? buffer : (byte*)&_capacity` -/
+def Buf.home (self : Nat) (b : Buf) : Buf :=
+  match b.store with
+  | .own _ => { b with s := 0, e := 0 }
+  | _ => { b with store := .dflt self, s := 0, e := 0 }
+
+def Buf.removeFront (self : Nat) (b : Buf) (size : Nat) : Option Buf :=
+  if b.s + size ≥ b.e then
+    Buf.termIfOwning (b.home self)
+  else
+    pure { b with s := b.s + size }
+
+def Buf.removeBack (self : Nat) (b : Buf) (size : Nat) : Option Buf :=
+  if b.s + size ≥ b.e then
+    Buf.termIfOwning (b.home self)
   else do
-    let d ← st.load sr soff n
-    -- the destination range must be valid even for n = 0 only if n > 0 (memcpy of 0 bytes touches nothing)
-    st.store self dr doff d
+    let e ← ptrSub b.e size
+    Buf.termIfOwning { b with e := e }
 
-/-- `Memory::move` = `memmove` -/
-def State.move (st : State) (self : Nat) (dr : Ref) (doff : Nat) (sr : Ref) (soff n : Nat) : Option State := do
-  let d ← st.load sr soff n
-  st.store self dr doff d
+def Buf.reserve (b : Buf) (capacity : Nat) : Option Buf :=
+  if capacity ≤ b.cap then pure b
+  else do
+    let size := b.e - b.s
+    let capacity := if capacity < size then size else capacity
+    let m := fresh (capacity + 1)
+    let old ← b.store.load b.s size
+    let m ← wrList m 0 old
+    let m ← wrList m size [some 0]
+    pure { store := .own m, s := 0, e := size, cap := capacity }
+
+def Buf.clear (b : Buf) : Option Buf :=
+  match b.store with
+  | .own m => do
+    let m ← wrList m 0 [some 0]
+    pure { b with store := .own m, s := 0, e := 0 }
+  | _ => pure { b with e := b.s }
+
+/-- second half of `swap`: `if(bufferStart == (byte*)&other._capacity) bufferStart = bufferEnd = (byte*)&_capacity;` -/
+def Buf.rehome (owner other : Nat) (b : Buf) : Buf :=
+  match b.store with
+  | .dflt c => if c = other ∧ b.s = 0 then { b with store := .dflt owner, s := 0, e := 0 } else b
+  | _ => b
+
+/-! ### program state: the Buffer variables and the attachable caller memory -/
+
+structure State where
+  bufs : List Buf
+  regs : List (List Byte)
+  deriving Repr, Inhabited
+
+def init (nvars : Nat) (regs : List (List Byte)) : State :=
+  { bufs := (List.range nvars).map Buf.default, regs := regs }
 
 def State.getBuf (st : State) (v : Nat) : Option Buf := st.bufs[v]?
 def State.setBuf (st : State) (v : Nat) (b : Buf) : State := { st with bufs := st.bufs.set v b }
 
-/-- where `buffer ? buffer : (byte*)&_capacity` points -/
-def homeRef (v : Nat) (b : Buf) : Ref :=
-  match b.buffer with
-  | some id => .heap id
-  | none => .cell v
-
-/-! ### constructors / destructor -/
-
-def destroy (st : State) (v : Nat) : Option State := do
+/-- run a method on variable `v` -/
+def State.upd (st : State) (v : Nat) (f : Buf → Option Buf) : Option State := do
   let b ← st.getBuf v
-  st.free b.buffer
-
-def ctorDefault (st : State) (v : Nat) : State := st.setBuf v (defaultBuf v)
-
-/-- `Buffer(usize capacity)` -/
-def ctorCap (st : State) (v : Nat) (capacity : Nat) : Option State := do
-  let (st, id) := st.alloc (capacity + 1)
-  let st := st.setBuf v { buffer := some id, ref := .heap id, s := 0, e := 0, cap := capacity }
-  st.store v (.heap id) 0 [some 0]
-
-/-- `Buffer(const byte* data, usize size)` with the data given by value -/
-def ctorData (st : State) (v : Nat) (data : List Byte) : Option State := do
-  let size := data.length
-  let (st, id) := st.alloc (size + 1)
-  let st := st.setBuf v { buffer := some id, ref := .heap id, s := 0, e := size, cap := size }
-  let st ← st.store v (.heap id) 0 data
-  st.store v (.heap id) size [some 0]
-
-/-- `Buffer(const Buffer& other)` constructing variable `v` from `w` -/
-def ctorCopy (st : State) (v w : Nat) : Option State := do
-  let o ← st.getBuf w
-  let size := o.e - o.s
-  let (st, id) := st.alloc (size + 1)
-  let st := st.setBuf v { buffer := some id, ref := .heap id, s := 0, e := size, cap := size }
-  let st ← st.copy v (.heap id) 0 o.ref o.s size
-  st.store v (.heap id) size [some 0]
-
-/-! ### methods (`src` describes where the `data` pointer of the C++ call points) -/
-
-/-- source of a `(const byte* data, usize size)` argument: caller memory holding `bytes`
-    (modelled by value) -/
-def storeArg (st : State) (self : Nat) (dr : Ref) (doff : Nat) (data : List Byte) : Option State :=
-  st.store self dr doff data
-
-def attach (st : State) (v r off len : Nat) : Option State := do
-  let b ← st.getBuf v
-  let st ← st.free b.buffer
-  pure (st.setBuf v { b with buffer := none, ref := .reg r, s := off, e := off + len, cap := 0 })
-
-/-- `operator=(const Buffer& other)` -/
-def assignBuf (st : State) (v w : Nat) : Option State := do
-  let b ← st.getBuf v
-  let o ← st.getBuf w
-  let size := o.e - o.s
-  if size > b.cap then do
-    let st ← st.free b.buffer
-    let (st, id) := st.alloc (size + 1)
-    -- `other` is re-read after the allocation (it may be `*this`)
-    let st := st.setBuf v { b with buffer := some id, cap := size }
-    let o ← st.getBuf w
-    let st ← st.copy v (.heap id) 0 o.ref o.s size
-    let b ← st.getBuf v
-    let st := st.setBuf v { b with ref := .heap id, s := 0, e := size }
-    st.store v (.heap id) size [some 0]
-  else
-    match b.buffer with
-    | none =>
-      -- not owning: become empty (nothing to copy since size ≤ cap = 0)
-      pure (st.setBuf v { b with e := b.s })
-    | some id => do
-      let st ← st.move v (.heap id) 0 o.ref o.s size
-      let b ← st.getBuf v
-      let st := st.setBuf v { b with ref := .heap id, s := 0, e := size }
-      st.store v (.heap id) size [some 0]
-
-/-- `assign(const byte* data, usize size)` -/
-def assignData (st : State) (v : Nat) (data : List Byte) : Option State := do
-  let b ← st.getBuf v
-  let size := data.length
-  if size > b.cap then do
-    let st ← st.free b.buffer
-    let (st, id) := st.alloc (size + 1)
-    let st := st.setBuf v { b with buffer := some id, cap := size, ref := .heap id, s := 0, e := size }
-    let st ← st.store v (.heap id) 0 data
-    st.store v (.heap id) size [some 0]
-  else
-    match b.buffer with
-    | none => pure (st.setBuf v { b with e := b.s })
-    | some id => do
-      let st ← st.store v (.heap id) 0 data
-      let b ← st.getBuf v
-      let st := st.setBuf v { b with ref := .heap id, s := 0, e := size }
-      st.store v (.heap id) size [some 0]
-
-/-- generic prepend; the source bytes are loaded through `src` *at the moment the code
-    copies them* (so a source aliasing the buffer sees the intermediate state) -/
-def prependGen (st : State) (v : Nat) (size : Nat) (aliases : Bool)
-    (copyArg : State → Ref → Nat → Option State) : Option State := do
-  let b ← st.getBuf v
-  let owning := b.buffer.isSome
-  if owning && b.s ≥ size then do
-    -- `bufferStart - buffer >= size`: room in front
-    let st := st.setBuf v { b with s := b.s - size }
-    copyArg st b.ref (b.s - size)
-  else
-    let oldSize := b.e - b.s
-    let required := size + oldSize
-    if owning && b.cap ≥ required && !aliases then do
-      let st ← st.move v b.ref size b.ref b.s oldSize
-      let st ← copyArg st b.ref 0
-      let b ← st.getBuf v
-      let st := st.setBuf v { b with s := 0, e := required }
-      st.store v b.ref required [some 0]
-    else do
-      let (st, id) := st.alloc (required + 1)
-      let b ← st.getBuf v
-      let st := st.setBuf v { b with cap := required }
-      let st ← copyArg st (.heap id) 0
-      let st ← st.copy v (.heap id) size b.ref b.s oldSize
-      let st ← st.free b.buffer
-      let b ← st.getBuf v
-      let st := st.setBuf v { b with buffer := some id, ref := .heap id, s := 0, e := required }
-      st.store v (.heap id) required [some 0]
-
-def prependData (st : State) (v : Nat) (data : List Byte) : Option State :=
-  prependGen st v data.length false (fun st dr doff => st.store v dr doff data)
-
-/-- `prepend(const Buffer& data)`: pointer and size are taken from `w` before the call -/
-def prependBuf (st : State) (v w : Nat) : Option State := do
-  let o ← st.getBuf w
-  let size := o.e - o.s
-  prependGen st v size (v == w) (fun st dr doff => st.copy v dr doff o.ref o.s size)
-
-/-- `resize(usize size)` -/
-def resize (st : State) (v : Nat) (size : Nat) : Option State := do
-  let b ← st.getBuf v
-  if size > b.cap then do
-    let (st, id) := st.alloc (size + 1)
-    let st := st.setBuf v { b with cap := size }
-    let old := b.e - b.s
-    let st ← st.copy v (.heap id) 0 b.ref b.s (if old < size then old else size)
-    let st ← st.free b.buffer
-    let b ← st.getBuf v
-    let st := st.setBuf v { b with buffer := some id, ref := .heap id, s := 0, e := size }
-    st.store v (.heap id) size [some 0]
-  else
-    match b.buffer with
-    | some id =>
-      if b.s + size ≤ b.cap then do
-        let st := st.setBuf v { b with e := b.s + size }
-        st.store v (.heap id) (b.s + size) [some 0]
-      else do
-        let st ← st.move v (.heap id) 0 b.ref b.s (b.e - b.s)
-        let b ← st.getBuf v
-        let st := st.setBuf v { b with s := 0, e := size }
-        st.store v (.heap id) size [some 0]
-    | none =>
-      -- not owning and size ≤ cap = 0: shrink the window to nothing
-      pure (st.setBuf v { b with e := b.s })
-
-/-- `append(const byte* data, usize size)` -/
-def appendData (st : State) (v : Nat) (data : List Byte) : Option State := do
-  let b ← st.getBuf v
-  let st ← resize st v (b.e - b.s + data.length)
-  let b ← st.getBuf v
-  -- (the trailing `*bufferEnd = 0` of the C++ code is only executed when owning and then
-  --  re-writes the terminator that `resize` has already stored)
-  st.store v b.ref (b.e - data.length) data
-
-/-- `append(const Buffer& data)`; `data` is re-read after `resize` (it may be `*this`) -/
-def appendBuf (st : State) (v w : Nat) : Option State := do
-  let b ← st.getBuf v
-  let o ← st.getBuf w
-  let size := o.e - o.s
-  let st ← resize st v (b.e - b.s + size)
-  let b ← st.getBuf v
-  let o ← st.getBuf w
-  st.copy v b.ref (b.e - size) o.ref o.s size
-
-def removeFront (st : State) (v : Nat) (size : Nat) : Option State := do
-  let b ← st.getBuf v
-  if b.s + size ≥ b.e then
-    let st := st.setBuf v { b with ref := homeRef v b, s := 0, e := 0 }
-    match b.buffer with
-    | some id => st.store v (.heap id) 0 [some 0]
-    | none => pure st
-  else
-    pure (st.setBuf v { b with s := b.s + size })
-
-def removeBack (st : State) (v : Nat) (size : Nat) : Option State := do
-  let b ← st.getBuf v
-  if b.s + size ≥ b.e then
-    let st := st.setBuf v { b with ref := homeRef v b, s := 0, e := 0 }
-    match b.buffer with
-    | some id => st.store v (.heap id) 0 [some 0]
-    | none => pure st
-  else
-    let st := st.setBuf v { b with e := b.e - size }
-    match b.buffer with
-    | some _ => st.store v b.ref (b.e - size) [some 0]
-    | none => pure st
-
-def reserve (st : State) (v : Nat) (capacity : Nat) : Option State := do
-  let b ← st.getBuf v
-  if capacity ≤ b.cap then pure st
-  else do
-    let size := b.e - b.s
-    let capacity := if capacity < size then size else capacity
-    let (st, id) := st.alloc (capacity + 1)
-    let st := st.setBuf v { b with cap := capacity }
-    let st ← st.copy v (.heap id) 0 b.ref b.s size
-    let st ← st.free b.buffer
-    let b ← st.getBuf v
-    let st := st.setBuf v { b with buffer := some id, ref := .heap id, s := 0, e := size }
-    st.store v (.heap id) size [some 0]
-
-def clear (st : State) (v : Nat) : Option State := do
-  let b ← st.getBuf v
-  match b.buffer with
-  | some id =>
-    let st := st.setBuf v { b with ref := .heap id, s := 0, e := 0 }
-    st.store v (.heap id) 0 [some 0]
-  | none => pure (st.setBuf v { b with e := b.s })
-
-/-- re-point a default-state pointer at the object that now holds it -/
-def rehome (owner : Nat) (b : Buf) : Buf :=
-  match b.ref with
-  | .cell _ => { b with ref := .cell owner }
-  | _ => b
-
-def swap (st : State) (v w : Nat) : Option State := do
-  let a ← st.getBuf v
-  let b ← st.getBuf w
-  let st := st.setBuf v (rehome v b)
-  pure (st.setBuf w (rehome w a))
-
-def free (st : State) (v : Nat) : Option State := do
-  let b ← st.getBuf v
-  let st ← st.free b.buffer
-  pure (st.setBuf v (defaultBuf v))
+  let b' ← f b
+  pure (st.setBuf v b')
 
 /-- exposed bytes of variable `v` -/
 def contents (st : State) (v : Nat) : Option (List Byte) := do
   let b ← st.getBuf v
-  st.load b.ref b.s (b.e - b.s)
+  b.contents
 
 def equalBufs (st : State) (v w : Nat) : Option Bool := do
   let a ← contents st v
@@ -363,11 +337,11 @@ def equalBufs (st : State) (v w : Nat) : Option Bool := do
 /-- the byte following the data when the storage is owned -/
 def terminator (st : State) (v : Nat) : Option (Option Byte) := do
   let b ← st.getBuf v
-  match b.buffer with
-  | none => pure none
-  | some _ => do
-    let t ← st.load b.ref b.e 1
+  match b.store with
+  | .own m => do
+    let t ← rdList m b.e 1
     pure (some (t.headD none))
+  | _ => pure none
 
 /-! ### operations as data -/
 
@@ -394,28 +368,40 @@ inductive Op where
 
 def bytesOf (d : List Nat) : List Byte := d.map some
 
+/-- a method of `v` taking the bytes of `w ≠ v` -/
+def State.updFrom (st : State) (v w : Nat) (f : Buf → List Byte → Option Buf) : Option State := do
+  let d ← contents st w
+  st.upd v (fun b => f b d)
+
 def step (st : State) : Op → Option State
-  | .ctorDefault v => do let st ← destroy st v; pure (ctorDefault st v)
-  | .ctorCap v n => do let st ← destroy st v; ctorCap st v n
-  | .ctorData v d => do let st ← destroy st v; ctorData st v (bytesOf d)
+  -- the constructors re-create variable `v` in place: `v.~Buffer(); new (&v) Buffer(...)`
+  | .ctorDefault v => st.upd v (fun _ => some (Buf.default v))
+  | .ctorCap v n => st.upd v (fun _ => Buf.ctorCap n)
+  | .ctorData v d => st.upd v (fun _ => Buf.ctorData (bytesOf d))
   | .ctorCopy v w =>
-    -- `Buffer tmp(w); v.~Buffer(); new (&v) Buffer(tmp)` is what the harness does when v = w;
-    -- for v ≠ w the old object is destroyed first
-    if v = w then some st else do let st ← destroy st v; ctorCopy st v w
-  | .attach v r off len => attach st v r off len
-  | .assignBuf v w => assignBuf st v w
-  | .assignData v d => assignData st v (bytesOf d)
-  | .prependData v d => prependData st v (bytesOf d)
-  | .prependBuf v w => prependBuf st v w
-  | .appendData v d => appendData st v (bytesOf d)
-  | .appendBuf v w => appendBuf st v w
-  | .resize v n => resize st v n
-  | .removeFront v n => removeFront st v n
-  | .removeBack v n => removeBack st v n
-  | .reserve v n => reserve st v n
-  | .clear v => clear st v
-  | .swap v w => swap st v w
-  | .free v => free st v
+    -- the harness skips `copy v v` (an object cannot be copy-constructed from itself)
+    if v = w then st.upd v some else st.updFrom v w (fun _ d => Buf.ctorData d)
+  | .attach v r off len => do
+    let region ← st.regs[r]?
+    let range ← rdList region off len
+    st.upd v (fun _ => some (Buf.attach range))
+  | .assignBuf v w => if v = w then st.upd v Buf.assignSelf else st.updFrom v w Buf.assign
+  | .assignData v d => st.upd v (fun b => b.assign (bytesOf d))
+  | .prependData v d => st.upd v (fun b => b.prepend (bytesOf d))
+  | .prependBuf v w => if v = w then st.upd v Buf.prependSelf else st.updFrom v w Buf.prepend
+  | .appendData v d => st.upd v (fun b => b.append (bytesOf d))
+  | .appendBuf v w => if v = w then st.upd v Buf.appendSelf else st.updFrom v w Buf.append
+  | .resize v n => st.upd v (fun b => b.resize n)
+  | .removeFront v n => st.upd v (fun b => b.removeFront v n)
+  | .removeBack v n => st.upd v (fun b => b.removeBack v n)
+  | .reserve v n => st.upd v (fun b => b.reserve n)
+  | .clear v => st.upd v Buf.clear
+  | .swap v w => do
+    let a ← st.getBuf v
+    let b ← st.getBuf w
+    let st := st.setBuf v (b.rehome v w)
+    pure (st.setBuf w (a.rehome w v))
+  | .free v => st.upd v (fun _ => some (Buf.default v))
 
 def run (st : State) : List Op → Option State
   | [] => some st
